@@ -9,7 +9,22 @@ its cache).  A counting wrapper on the dispatch table entries records which pref
 ``sequence_variables.statistics``.
 Oracle: exact rational arithmetic (``fractions.Fraction``) written from the "Summary
 statistics" section of the DT_In docstring and the property statement.
+
+Two further parts generalise *how* the list reaches the tag and *what happened before*:
+
+* shapes — the same items handed over as a tuple, deque, plain ``__getitem__``/``__len__`` class,
+  generator, iterator, ``map``, dict-values view, set/frozenset or ``__iter__``-only class, looped
+  with batch options (size/start/end/orphan/overlap, literal or by name), ``reverse`` / ``sort`` /
+  ``reverse_expr`` / ``sort_expr``, the name or the expression form of the tag, one to three data
+  variables (accesses interleaved or grouped), and the statistics emitted on the first displayed
+  element, the last one, or on every one (each emission is judged).
+* histories — one container object rendered again and again in the same process (same compiled
+  template or a new one, other channel / rotation / mapping flag) while the application changes
+  it in place between the renders (a value of an element, an element, append / pop / swap, a new
+  container of the same elements, an unrelated render in between), or between two dtml-in tags of
+  the same template; every render is judged against the model of the values at that moment.
 """
+import collections
 import hashlib
 import itertools
 import math
@@ -26,9 +41,24 @@ RULE = ('exhaustive lists of length 1..4 (thorough 1..5) over {-2,0,1,3,0.5,2.5,
         'rendered in the four modes {var,expression} x {mapping,attributes} with the first-accessed '
         'statistic rotated over all ten names and the variable name drawn from {x,n,age,count,value}; '
         '30% of the seeded renders summarise a second, independently generated variable of the same '
-        'items with interleaved accesses; a case is non-trivial when at least two values of a variable '
-        'are non-missing; distinct = distinct (variable names with their typed value lists, mapping, '
-        'channel, rotation)')
+        'items with interleaved accesses. SHAPES: every exhaustive list of length 2..4 and 4000 (thorough '
+        '120000) seeded lists with 1..3 variables are rendered once more with a drawn container (list, tuple, '
+        'deque, __getitem__/__len__ class, generator, iterator, map, dict values view, set, frozenset, '
+        '__iter__-only class), element type (dict, attribute object, both), batch options (subsets of '
+        'size/start/end with orphan/overlap, literal or by name; 65%), order (reverse, sort, reverse_expr, '
+        'sort_expr), tag form (name, "expr", expr="..."), access layout (interleaved / grouped by variable) '
+        'and emission point (first displayed element, last displayed element, every element - each emission '
+        'is judged). HISTORIES: all [render, change one value in place, render] histories on lists of length '
+        '1..2 (thorough 1..3) over the first two domains, and 800 (thorough 30000) seeded histories of 2..5 '
+        'renders of ONE container object (list, tuple, deque, sequence class, dict values view; elements dict / '
+        'attribute object / both) with an operation before each render drawn from {set a value, replace an '
+        'element, append, pop, swap, new container of the same elements, unrelated render, nothing}, the '
+        'render going through the same compiled template, another one (other channel / mapping flag / first '
+        'statistic / subset of the variables) or a newly compiled one; 20% of the renders use a template with '
+        'two dtml-in tags over the sequence and the operation applied by a call between them; every render is '
+        'judged against the model of the values at that moment. A case is non-trivial when at least two values '
+        'of a variable are non-missing; distinct = distinct (variable names with their typed value lists, '
+        'mapping, channel, rotation[, container and options | history prefix])')
 ASSUMPTIONS = [
     'only all-numeric(+None) or all-string(+None) lists are generated (the mixes the documentation defines)',
     'ints: count/total/min/max/odd median are demanded exactly; floats and all derived statistics within '
@@ -40,11 +70,25 @@ ASSUMPTIONS = [
     'a standard deviation is accepted when it lies between the roots of (variance -/+ its tolerance)',
     'the Missing package is not installed in /venv: Missing.Value is simulated by binding DT_InSV.mv to a '
     'sentinel that absorbs arithmetic like the real one',
+    'the statistics summarise the x values of the sequence given to the tag: with batch options (which only '
+    'select the displayed part), under sort / reverse (same values, other order) and for every kind of '
+    'iterable the tag accepts, the expected values are those of all elements; the same holds at whatever '
+    'element of the loop the statistic is asked for',
+    'a render reports the values the elements have when that dtml-in tag runs: earlier renders of the same '
+    'objects (by any template of the process) must not show through; what a statistic asked twice INSIDE one '
+    'loop returns after the data changed during that loop is not asserted (changes are applied between tags)',
+    'not generated (statement silent): sequences of (key, value) pairs, elements lacking the variable, '
+    'previous / next renders, sort on data holding the simulated Missing.Value',
+    'the wrappers on sequence_variables.statistics / the dispatch table and the reach anchors are diagnosis '
+    '(coverage.internals_diagnosis); the verdict and inconclusive rest on the compared outputs only',
 ]
 SHARD_TIMEOUT = {'quick': 600, 'thorough': 3000}
 NSHARDS = {'quick': 16, 'thorough': 48}
 SEEDED = {'quick': 5000, 'thorough': 200000}
 EXH_LEN = {'quick': 4, 'thorough': 5}
+SHAPES = {'quick': 4000, 'thorough': 120000}
+HISTORIES = {'quick': 800, 'thorough': 30000}
+EXH_HIST_LEN = {'quick': 2, 'thorough': 3}
 
 STATS = ('total', 'count', 'min', 'max', 'median', 'mean', 'variance', 'variance-n',
          'standard-deviation', 'standard-deviation-n')
@@ -353,17 +397,158 @@ def classify_exception(exc, m):
 
 
 # ---------------------------------------------------------------- harness
-def source(channel, mapping, rot, names):
-    """All ten statistics of each variable; with two variables the accesses are interleaved."""
+GAP = '\x1d'
+BATCH_KEYS = ('size', 'start', 'end', 'orphan', 'overlap')
+DEFAULT_OPTS = {'where': 'end', 'batch': None, 'batch_names': False, 'order': '', 'form': 'name',
+                'layout': 'interleaved', 'items': None}
+WHERES = ('end', 'start', 'every')
+ORDERS = ('', 'reverse', 'sort', 'reverse_expr', 'sort_expr')
+FORMS = ('name', 'expr', 'expr=')
+# containers the tag subscripts directly / containers it has to wrap (no __getitem__)
+DIRECT = ('list', 'tuple', 'deque', 'seqclass')
+LAZY = ('generator', 'iterator', 'map', 'dictvalues', 'set', 'frozenset', 'iterclass')
+HIST_CONTAINERS = ('list', 'list', 'list', 'tuple', 'deque', 'seqclass', 'dictvalues')
+HIST_OPS = ('none', 'set', 'replace', 'append', 'pop', 'swap', 'rebuild', 'other')
+STRUCTURAL = ('replace', 'append', 'pop', 'swap')
+
+
+def full_opts(opts):
+    o = dict(DEFAULT_OPTS)
+    o.update(opts or {})
+    return o
+
+
+def source(channel, mapping, rot, names, opts=None, loops=1):
+    """All ten statistics of each variable; with several variables the accesses are interleaved
+    (or grouped by variable).  loops=2: the same loop twice with a call of ``mut`` in between."""
+    o = full_opts(opts)
     order = STATS[rot:] + STATS[:rot]
-    slots = [(s, nm) for s in order for nm in names]
-    head = '<dtml-in seq%s><dtml-if sequence-end>' % (' mapping' if mapping else '')
+    if o['layout'] == 'grouped':
+        slots = [(s, nm) for nm in names for s in order]
+    else:
+        slots = [(s, nm) for s in order for nm in names]
+    ref = {'name': 'seq', 'expr': '"seq"', 'expr=': 'expr="seq"'}[o['form']]
+    attrs = ' mapping' if mapping else ''
+    for k in BATCH_KEYS:
+        if o['batch'] and k in o['batch']:
+            attrs += ' %s=%s' % (k, 'b_' + k if o['batch_names'] else o['batch'][k])
+    attrs += {'': '', 'reverse': ' reverse', 'sort': ' sort=%s' % names[0],
+              'reverse_expr': ' reverse_expr="1"', 'sort_expr': ' sort_expr="\'%s\'"' % names[0]}[o['order']]
+    guard = {'end': 'sequence-end', 'start': 'sequence-start', 'every': None}[o['where']]
+    head = '<dtml-in %s%s>' % (ref, attrs) + ('<dtml-if %s>' % guard if guard else '')
     if channel == 'var':
         body = MARK + SEP.join('<dtml-var %s-%s>' % (s, nm) for s, nm in slots) + MARK
     else:
         body = ''.join('<dtml-call "rec((\'%s\', \'%s\'), _[\'%s-%s\'])">' % (s, nm, s, nm)
                        for s, nm in slots)
-    return head + body + '</dtml-if></dtml-in>', slots
+    loop = head + body + ('</dtml-if>' if guard else '') + '</dtml-in>'
+    if loops == 2:
+        return loop + GAP + '<dtml-call "mut()">' + loop, slots
+    return loop, slots
+
+
+class Both(dict):
+    """An element that is a mapping and offers its keys as attributes as well."""
+    __hash__ = object.__hash__
+
+    def __getattr__(self, name):
+        try:
+            return self[name]
+        except KeyError:
+            raise AttributeError(name)
+
+
+class Seq:
+    """A sequence in the narrow sense: subscription and length, nothing else."""
+
+    def __init__(self, items):
+        self._items = items
+
+    def __getitem__(self, i):
+        if not isinstance(i, int):
+            raise TypeError(i)
+        return self._items[i]
+
+    def __len__(self):
+        return len(self._items)
+
+
+class Iterable:
+    """Iteration only."""
+
+    def __init__(self, items):
+        self._items = items
+
+    def __iter__(self):
+        return iter(list(self._items))
+
+
+def new_item(kind, values):
+    if kind == 'dict':
+        return dict(values)
+    if kind == 'both':
+        return Both(values)
+    it = Item()
+    for k, v in values.items():
+        setattr(it, k, v)
+    return it
+
+
+def set_value(kind, item, name, value):
+    if kind == 'item':
+        setattr(item, name, value)
+    else:
+        item[name] = value
+
+
+def make_items(variables, kind):
+    length = len(variables[0][1])
+    return [new_item(kind, {nm: vals[i] for nm, vals in variables}) for i in range(length)]
+
+
+def make_container(kind, items):
+    if kind == 'list':
+        return items
+    if kind == 'tuple':
+        return tuple(items)
+    if kind == 'deque':
+        return collections.deque(items)
+    if kind == 'seqclass':
+        return Seq(items)
+    if kind == 'generator':
+        return (it for it in items)
+    if kind == 'iterator':
+        return iter(items)
+    if kind == 'map':
+        return map(lambda it: it, items)
+    if kind == 'dictvalues':
+        return dict(enumerate(items)).values()
+    if kind == 'set':
+        return set(items)
+    if kind == 'frozenset':
+        return frozenset(items)
+    if kind == 'iterclass':
+        return Iterable(items)
+    raise ValueError(kind)
+
+
+class Unparseable(Exception):
+    pass
+
+
+def parse_blocks(text, nslots):
+    """MARK v SEP v ... MARK, any number of times; nothing else."""
+    if not isinstance(text, str):
+        raise Unparseable(repr(text)[:200])
+    parts = text.split(MARK)
+    if len(parts) % 2 == 0 or any(parts[0::2]):
+        raise Unparseable(repr(text[:200]))
+    blocks = []
+    for b in parts[1::2]:
+        if b.count(SEP) != nslots - 1:
+            raise Unparseable(repr(text[:200]))
+        blocks.append(b.split(SEP))
+    return blocks
 
 
 class Env:
@@ -376,11 +561,17 @@ class Env:
         self.cache = {}
         self.calls = []
         self.samples = {}
+        self._other = None
 
     def install(self):
-        """Counting wrapper on the statistics entries of the real dispatch table."""
+        """Counting wrapper on the statistics entries of the real dispatch table (diagnosis only:
+        which prefix led to the computation; the verdict never depends on it)."""
         sv = self.DT_InSV.sequence_variables
-        real = sv.statistics
+        real = getattr(sv, 'statistics', None)
+        table = getattr(sv, 'special_prefixes', None)
+        if real is None or not isinstance(table, dict):
+            self.ctx.count('dispatch:table entries wrapped', 0)
+            return
         calls = self.calls
 
         def statistics(self_, name, key):
@@ -388,115 +579,221 @@ class Env:
             return real(self_, name, key)
         statistics.__wrapped__ = real
         n = 0
-        for k, v in list(sv.special_prefixes.items()):
+        for k, v in list(table.items()):
             if v is real:
-                sv.special_prefixes[k] = statistics
+                table[k] = statistics
                 n += 1
         self.ctx.count('dispatch:table entries wrapped', n)
 
-    def template(self, channel, mapping, rot, names):
-        k = (channel, mapping, rot, names)
-        t = self.cache.get(k)
+    def template(self, channel, mapping, rot, names, opts=None, loops=1, fresh=False):
+        if opts is None and loops == 1:
+            k = (channel, mapping, rot, names)
+        else:
+            o = full_opts(opts)
+            k = (channel, mapping, rot, names, loops, o['where'], o['batch_names'], o['order'], o['form'],
+                 o['layout'], tuple(sorted((o['batch'] or {}).items())))
+        t = None if fresh else self.cache.get(k)
         if t is None:
-            src, slots = source(channel, mapping, rot, names)
-            t = self.cache[k] = (self.HTML(src), slots)
+            src, slots = source(channel, mapping, rot, names, opts, loops)
+            t = (self.HTML(src), slots)
+            if len(self.cache) < 4000:
+                self.cache[k] = t
+            self.ctx.count('templates compiled')
         return t
+
+    def other(self):
+        """An unrelated render in between (its own list, its own template)."""
+        if self._other is None:
+            self._other = self.HTML('<dtml-in seq mapping><dtml-if sequence-end>'
+                                    '<dtml-var total-x>/<dtml-var count-x></dtml-if></dtml-in>')
+        return self._other(seq=[{'x': 1}, {'x': 2}, {'x': 4}])
+
+    def render(self, tmpl, slots, channel, seq, uses_mv, kw=None, mut=None):
+        """Render once; returns the emitted blocks, one list per loop: [[{slot: raw}, ...], ...]."""
+        ctx = self.ctx
+        kw = dict(kw or {})
+        got = {}
+        groups = []
+
+        def rec(k, v):
+            got.setdefault(k, []).append(v)
+
+        def cut():
+            groups.append(dict(got))
+            got.clear()
+
+        if mut is not None:
+            def mut_():
+                cut()
+                mut()
+            kw['mut'] = mut_
+        if channel == 'expr':
+            kw['rec'] = rec
+        del self.calls[:]
+        if uses_mv:
+            self.DT_InSV.mv = MISSING
+            ctx.count('data:renders with the simulated Missing.Value')
+        try:
+            out = tmpl(seq=seq, **kw)
+        finally:
+            if uses_mv:
+                self.DT_InSV.mv = None
+        cut()
+        if channel == 'var':
+            texts = out.split(GAP) if isinstance(out, str) else [out]
+            if len(texts) != len(groups):
+                raise Unparseable(repr(out)[:200])
+            return [[dict(zip(slots, b)) for b in parse_blocks(t, len(slots))] for t in texts]
+        res = []
+        for g in groups:
+            if not g:
+                res.append([])
+                continue
+            if set(g) != set(slots) or len({len(v) for v in g.values()}) != 1:
+                raise Unparseable('recorder saw %r, expected every one of %r equally often'
+                                  % (sorted((k, len(v)) for k, v in g.items()), slots))
+            n = len(g[slots[0]])
+            res.append([{k: g[k][j] for k in slots} for j in range(n)])
+        return res
 
 
 def digest(desc):
     return hashlib.blake2b(repr(desc).encode('utf-8', 'backslashreplace'), digest_size=5).hexdigest()
 
 
-def evaluate(ctx, env, variables, mapping, channel, rot, container='list', origin='seeded'):
-    """variables: [(name, values)] — one or two data variables of the same items."""
-    names = tuple(nm for nm, _ in variables)
-    models = {nm: model(vals) for nm, vals in variables}
-    encd = [[nm, enc(vals)] for nm, vals in variables]
-    desc = (repr(encd), mapping, channel, rot)
-    case = {'variables': encd, 'mapping': mapping, 'channel': channel, 'rot': rot,
-            'container': container, 'origin': origin}
-    ctx.case(desc, any(m['n'] >= 2 for m in models.values()))
-    tmpl, slots = env.template(channel, mapping, rot, names)
-    length = len(variables[0][1])
-    items = []
-    for i in range(length):
-        if mapping:
-            items.append({nm: vals[i] for nm, vals in variables})
-        else:
-            it = Item()
-            for nm, vals in variables:
-                setattr(it, nm, vals[i])
-            items.append(it)
-    seq = tuple(items) if container == 'tuple' else items
-    uses_mv = any(v is MISSING for _, vals in variables for v in vals)
-    got = {}
-    del env.calls[:]
-    if uses_mv:
-        env.DT_InSV.mv = MISSING
-        ctx.count('data:renders with the simulated Missing.Value')
-    try:
-        try:
-            if channel == 'var':
-                out = tmpl(seq=seq)
-            else:
-                out = tmpl(seq=seq, rec=got.__setitem__)
-        finally:
-            if uses_mv:
-                env.DT_InSV.mv = None
-    except Exception as e:
-        mech = None
-        for m in models.values():
-            mech = mech or classify_exception(e, m)
-        ctx.count('renders that raised')
-        ctx.violation('rendering the statistics of %r raised %s: %s'
-                      % (encd, type(e).__name__, str(e)[:120]), case, mech=mech,
-                      key='raise_%s_%s' % (type(e).__name__, digest(desc)))
-        return
-    ctx.count('renders observed')
-    ctx.table('mode', '%s/%s' % (channel, 'mapping' if mapping else 'attributes'))
-    ctx.table('variables per render', len(variables))
-    ctx.table('first-accessed statistic', slots[0][0])
+def dispatch_tables(ctx, env):
     seen = set()
     for nm, key in env.calls:
         if nm not in seen:      # first entry for this variable: the access that computed its ten values
             seen.add(nm)
             ctx.table('statistics() entered through prefix', key[:-len(nm) - 1] if nm else key)
     ctx.count('dispatch:statistics() calls', len(env.calls))
-    if channel == 'var':
-        if not (isinstance(out, str) and out.startswith(MARK) and out.endswith(MARK)
-                and out.count(SEP) == len(slots) - 1):
-            ctx.violation('unparseable output %r' % (out[:200] if isinstance(out, str) else out,), case,
-                          key='parse_' + digest(desc))
-            return
-        raw = dict(zip(slots, out[1:-1].split(SEP)))
-    else:
-        if set(got) != set(slots):
-            ctx.violation('recorder saw %r, expected every statistic of %r' % (sorted(got), names), case,
-                          key='rec_' + digest(desc))
-            return
-        raw = got
+
+
+def judge_blocks(ctx, case, desc, blocks, variables, models, channel, mapping, label=''):
+    """Every emitted block against the model of every variable; True when all of them agree."""
     clean = True
+    for j, raw in enumerate(blocks):
+        for nm, vals in variables:
+            m = models[nm]
+            obs = {s: Obs(channel, raw[(s, nm)]) for s in STATS}
+            problems = judge(m, obs, ctx.count)
+            for stat, msg, mech in problems:
+                clean = False
+                ctx.count('problems:' + stat)
+                ctx.violation('%s [x=%s, data %r, %s, %s%s%s]'
+                              % (msg, nm, enc(vals), channel, 'mapping' if mapping else 'attributes',
+                                 '' if len(blocks) == 1 else ', emission %d of %d' % (j + 1, len(blocks)),
+                                 label),
+                              case, mech=mech, key='%s_%s' % (stat, digest(desc)),
+                              detail={'variable': nm, 'observed': {s: obs[s].show() for s in STATS}})
+    return clean
+
+
+def render_error(ctx, case, desc, e, encd, models, label=''):
+    mech = None
+    for m in models.values():
+        mech = mech or classify_exception(e, m)
+    ctx.count('renders that raised')
+    ctx.violation('rendering the statistics of %r raised %s: %s%s'
+                  % (encd, type(e).__name__, str(e)[:120], label), case, mech=mech,
+                  key='raise_%s_%s' % (type(e).__name__, digest(desc)))
+
+
+def evaluate(ctx, env, variables, mapping, channel, rot, container='list', origin='seeded', opts=None):
+    """variables: [(name, values)] — one or more data variables of the same items.
+
+    opts None: the plain loop of the first two parts (statistics on the last element); otherwise
+    a dict with the keys of DEFAULT_OPTS (a "shape")."""
+    names = tuple(nm for nm, _ in variables)
+    models = {nm: model(vals) for nm, vals in variables}
+    encd = [[nm, enc(vals)] for nm, vals in variables]
+    shape = opts is not None
+    o = full_opts(opts)
+    if shape:
+        desc = (repr(encd), mapping, channel, rot, container, repr(sorted(o.items())))
+    else:
+        desc = (repr(encd), mapping, channel, rot)
+    case = {'variables': encd, 'mapping': mapping, 'channel': channel, 'rot': rot,
+            'container': container, 'origin': origin}
+    if shape:
+        case['opts'] = o
+    ctx.case(desc, any(m['n'] >= 2 for m in models.values()))
+    tmpl, slots = env.template(channel, mapping, rot, names, opts)
+    length = len(variables[0][1])
+    kind = o['items'] or ('dict' if mapping else 'item')
+    seq = make_container(container, make_items(variables, kind))
+    uses_mv = any(v is MISSING for _, vals in variables for v in vals)
+    kw = {}
+    if o['batch'] and o['batch_names']:
+        kw = {'b_' + k: v for k, v in o['batch'].items()}
+    try:
+        groups = env.render(tmpl, slots, channel, seq, uses_mv, kw)
+    except Unparseable as e:
+        ctx.violation('unparseable output / record: %s' % (e,), case, key='parse_' + digest(desc))
+        return
+    except Exception as e:
+        render_error(ctx, case, desc, e, encd, models)
+        return
+    blocks = groups[0]
+    ctx.count('renders observed')
+    ctx.table('mode', '%s/%s' % (channel, 'mapping' if mapping else 'attributes'))
+    ctx.table('variables per render', len(variables))
+    ctx.table('first-accessed statistic', slots[0][0])
+    dispatch_tables(ctx, env)
+    if o['where'] == 'every':
+        want_blocks = len(blocks) >= 1 and (o['batch'] is not None or len(blocks) == length)
+    else:
+        want_blocks = len(blocks) == 1
+    if not want_blocks:
+        ctx.violation('the statistics were emitted %d times (where=%s, %d items, batch %r)'
+                      % (len(blocks), o['where'], length, o['batch']), case, key='blocks_' + digest(desc))
+        return
+    if shape:
+        lazy = container in LAZY
+        ctx.count('shape:renders compared')
+        ctx.table('shape container', container)
+        ctx.table('shape where', o['where'])
+        ctx.table('shape order', o['order'] or 'plain')
+        ctx.table('shape form', o['form'])
+        ctx.table('shape layout x variables', '%s/%d' % (o['layout'], len(variables)))
+        ctx.table('shape items', kind)
+        ctx.table('shape batch', ('+'.join(k for k in BATCH_KEYS if k in o['batch'])
+                                  + ('/by-name' if o['batch_names'] else '/literal')) if o['batch'] else 'none')
+        ctx.count('shape:emissions judged', len(blocks))
+        if lazy and o['batch'] and len(variables) > 1:
+            ctx.count('shape:wrapped (non-subscriptable) container + batch + several variables')
+            b = o['batch']
+            if length > 2 and (b.get('size', 99) < length - 1 or b.get('end', 99) < length - 1):
+                ctx.count('shape:... and the batch ends well before the sequence does')
+        if lazy and o['batch']:
+            ctx.count('shape:wrapped (non-subscriptable) container + batch')
     for nm, vals in variables:
         m = models[nm]
-        obs = {s: Obs(channel, raw[(s, nm)]) for s in STATS}
         ctx.table('data class x length', '%s/%d' % (m['cls'], length))
         ctx.table('non-missing count', m['n'])
         if any(is_missing(v) for v in vals):
             ctx.count('data:lists containing missing values')
-        problems = judge(m, obs, ctx.count)
-        for stat, msg, mech in problems:
-            clean = False
-            ctx.count('problems:' + stat)
-            ctx.violation('%s [x=%s, data %r, %s, %s]' % (msg, nm, enc(vals), channel,
-                                                         'mapping' if mapping else 'attributes'),
-                          case, mech=mech, key='%s_%s' % (stat, digest(desc)),
-                          detail={'variable': nm, 'observed': {s: obs[s].show() for s in STATS}})
-    kind = '+'.join(models[nm]['cls'] for nm in names)
-    if clean and kind not in env.samples and len(env.samples) < 5 and models[names[0]]['n'] >= 3:
-        env.samples[kind] = 1
-        ctx.sample({'variables': encd, 'mapping': mapping, 'channel': channel,
-                    'first_accessed': '%s-%s' % slots[0],
-                    'observed': {'%s-%s' % k: repr(v) for k, v in raw.items()}})
+    label = ''
+    if shape:
+        label = ', %s of %s elements, <dtml-in %s%s%s>, statistics emitted on %s' % (
+            container, kind, o['form'],
+            ''.join(' %s=%s' % (k, o['batch'][k]) for k in BATCH_KEYS if o['batch'] and k in o['batch']),
+            ' ' + o['order'] if o['order'] else '',
+            {'end': 'the last displayed element', 'start': 'the first displayed element',
+             'every': 'every element'}[o['where']])
+    clean = judge_blocks(ctx, case, desc, blocks, variables, models, channel, mapping, label)
+    raw = blocks[0]
+    kindk = ('shape:' if shape else '') + '+'.join(models[nm]['cls'] for nm in names)
+    if clean and kindk not in env.samples and len(env.samples) < 5 and models[names[0]]['n'] >= 3:
+        env.samples[kindk] = 1
+        smp = {'variables': encd, 'mapping': mapping, 'channel': channel,
+               'first_accessed': '%s-%s' % slots[0],
+               'observed': {'%s-%s' % k: repr(v) for k, v in raw.items()}}
+        if shape:
+            smp['container'] = container
+            smp['opts'] = o
+        ctx.sample(smp)
 
 
 def all_modes(ctx, env, variables, i, origin):
@@ -518,15 +815,291 @@ def with_mv(values):
     return out
 
 
+# ---------------------------------------------------------------- histories
+class Box:
+    """The application's container object; it stays the same object while its content changes."""
+
+    def __init__(self, kind, items):
+        self.kind = kind
+        self.items = items
+        self.build()
+
+    def build(self):
+        k, items = self.kind, self.items
+        if k == 'list':
+            self.seq = items
+        elif k == 'seqclass':
+            self.seq = Seq(items)           # shares the list
+        elif k == 'tuple':
+            self.seq = tuple(items)
+        elif k == 'deque':
+            self.seq = collections.deque(items)
+        elif k == 'dictvalues':
+            self.d = dict(enumerate(items))
+            self.seq = self.d.values()
+        else:
+            raise ValueError(k)
+
+    def sync(self):
+        """After a structural change of ``items``: the same container object follows where it can."""
+        k = self.kind
+        if k == 'tuple':
+            self.seq = tuple(self.items)    # immutable: the application has to build another one
+        elif k == 'deque':
+            self.seq.clear()
+            self.seq.extend(self.items)
+        elif k == 'dictvalues':
+            self.d.clear()
+            self.d.update(enumerate(self.items))
+
+    def rebuild(self):
+        """A new container object holding the same elements."""
+        self.items = list(self.items)
+        self.build()
+
+
+class History:
+    def __init__(self, ctx, env, h):
+        self.ctx, self.env, self.h = ctx, env, h
+        self.names = list(h['names'])
+        self.kind = h['itemkind']
+        self.cur = {nm: dec(vals) for nm, vals in h['values']}
+        self.box = Box(h['container'], make_items([(nm, self.cur[nm]) for nm in self.names], self.kind))
+        self.uses_mv = "{'mv': 1}" in repr(h)
+
+    def apply(self, op):
+        cur, box, names = self.cur, self.box, self.names
+        n = len(cur[names[0]])
+        what = op[0]
+        if what == 'set':
+            i, nm, v = op[1] % n, op[2], dec([op[3]])[0]
+            cur[nm][i] = v
+            set_value(self.kind, box.items[i], nm, v)
+        elif what == 'replace':
+            i = op[1] % n
+            vals = {nm: dec([op[2][nm]])[0] for nm in names}
+            for nm in names:
+                cur[nm][i] = vals[nm]
+            box.items[i] = new_item(self.kind, vals)
+            box.sync()
+        elif what == 'append':
+            vals = {nm: dec([op[1][nm]])[0] for nm in names}
+            for nm in names:
+                cur[nm].append(vals[nm])
+            box.items.append(new_item(self.kind, vals))
+            box.sync()
+        elif what == 'pop':
+            if n > 1:
+                i = op[1] % n
+                for nm in names:
+                    cur[nm].pop(i)
+                box.items.pop(i)
+                box.sync()
+        elif what == 'swap':
+            i, j = op[1] % n, op[2] % n
+            for nm in names:
+                cur[nm][i], cur[nm][j] = cur[nm][j], cur[nm][i]
+            box.items[i], box.items[j] = box.items[j], box.items[i]
+            box.sync()
+        elif what == 'rebuild':
+            box.rebuild()
+        elif what == 'other':
+            self.env.other()
+        elif what != 'none':
+            raise ValueError(op)
+
+    def run(self, origin):
+        ctx, env, h = self.ctx, self.env, self.h
+        changed = False
+        for k, step in enumerate(h['steps']):
+            op = step['op']
+            self.apply(op)
+            if op[0] not in ('none', 'other'):
+                changed = True
+            ask = tuple(step.get('ask') or self.names)
+            mapping, channel, rot = step['mapping'], step['channel'], step['rot']
+            inline = step.get('inline')
+            opts = step.get('opts')
+            desc = ('history', repr(h['values']), h['itemkind'], h['container'], repr(h['steps'][:k + 1]))
+            case = {'history': h, 'failed_step': k, 'origin': origin}
+            label = ', step %d of a history on one %s object (operations so far: %s)' % (
+                k + 1, h['container'], ' '.join(s['op'][0] + ('+inline-' + s['inline'][0] if s.get('inline') else '')
+                                                for s in h['steps'][:k + 1]))
+            before = [(nm, list(self.cur[nm])) for nm in ask]
+            models = {nm: model(vals) for nm, vals in before}
+            ctx.case(desc, any(m['n'] >= 2 for m in models.values()))
+            tmpl, slots = env.template(channel, mapping, rot, ask, opts, 2 if inline else 1,
+                                       fresh=step.get('fresh', False))
+            mut = (lambda: self.apply(inline)) if inline else None
+            try:
+                groups = env.render(tmpl, slots, channel, self.box.seq, self.uses_mv, None, mut)
+            except Unparseable as e:
+                ctx.violation('unparseable output / record: %s%s' % (e, label), case, key='parse_' + digest(desc))
+                return
+            except Exception as e:
+                render_error(ctx, case, desc, e, [[nm, enc(v)] for nm, v in before], models, label)
+                return
+            dispatch_tables(ctx, env)
+            ctx.count('history:renders compared')
+            ctx.table('history operation before the render', op[0])
+            ctx.table('history container', h['container'])
+            ctx.table('history items', h['itemkind'])
+            ctx.table('history mode', '%s/%s' % (channel, 'mapping' if mapping else 'attributes'))
+            ctx.table('first-accessed statistic', slots[0][0])
+            if changed:
+                ctx.count('history:renders after an in-place change')
+            if k and not step.get('fresh'):
+                ctx.count('history:renders through an already used template')
+            if k and step.get('fresh'):
+                ctx.count('history:renders through a newly compiled template')
+            after = [(nm, list(self.cur[nm])) for nm in ask]
+            stages = [(before, models, '')]
+            if inline:
+                ctx.count('history:two dtml-in tags in one template with a change in between')
+                ctx.table('history operation between two tags', inline[0])
+                stages = [(before, models, ', first tag'),
+                          (after, {nm: model(vals) for nm, vals in after}, ', second tag (after %s)' % inline[0])]
+                if inline[0] not in ('none', 'other'):
+                    changed = True
+            if len(groups) != len(stages) or any(len(g) != 1 for g in groups):
+                ctx.violation('the statistics were emitted %r times%s' % ([len(g) for g in groups], label),
+                              case, key='blocks_' + digest(desc))
+                return
+            clean = True
+            for blocks, (variables, mods, lab) in zip(groups, stages):
+                clean = judge_blocks(ctx, case, desc, blocks, variables, mods, channel, mapping,
+                                     label + lab) and clean
+            if not clean:
+                return      # later steps of a history that went wrong are not independent evidence
+        if 'history' not in env.samples and len(h['steps']) >= 3 and origin == 'seeded':
+            env.samples['history'] = 1
+            ctx.sample({'history': h, 'verdict': 'every render agreed with the model of the current values'})
+
+
+def hist_modes(itemkind):
+    return [(c, m) for c, m in MODES if itemkind == 'both' or m == (itemkind == 'dict')]
+
+
+def exhaustive_histories(tier):
+    """[values] -> render -> one value changed in place -> render, over the small domains."""
+    for dom in (DOM_NUM, DOM_STR):
+        for L in range(1, EXH_HIST_LEN[tier] + 1):
+            for t in itertools.product(dom, repeat=L):
+                for i in range(L):
+                    for v in dom:
+                        if v != t[i]:
+                            yield list(t), i, v
+
+
+def count_exhaustive_histories(tier):
+    return sum(1 for _ in exhaustive_histories(tier))
+
+
+def gen_history(rng):
+    nvars = 1 if rng.random() < 0.7 else 2
+    names = rng.sample(NAMES, nvars)
+    n = rng.randint(1, 8)
+    pools, values = {}, []
+    for nm in names:
+        kind, vals = gen_list(rng, n)
+        _, more = gen_list(rng, 10, kind)
+        pools[nm] = enc(more)
+        values.append([nm, enc(vals)])
+    itemkind = rng.choice(['dict', 'item', 'both'])
+    container = rng.choice(HIST_CONTAINERS)
+    modes = hist_modes(itemkind)
+
+    def row():
+        return {nm: rng.choice(pools[nm]) for nm in names}
+
+    def gen_op():
+        what = rng.choice(HIST_OPS[1:]) if rng.random() < 0.9 else 'none'
+        if what == 'set':
+            nm = rng.choice(names)
+            return ['set', rng.randrange(10), nm, rng.choice(pools[nm])]
+        if what == 'replace':
+            return ['replace', rng.randrange(10), row()]
+        if what == 'append':
+            return ['append', row()]
+        if what == 'pop':
+            return ['pop', rng.randrange(10)]
+        if what == 'swap':
+            return ['swap', rng.randrange(10), rng.randrange(10)]
+        return [what]
+
+    steps = []
+    channel, mapping = rng.choice(modes)
+    rot = rng.randrange(10)
+    for k in range(rng.randint(2, 5)):
+        if k and rng.random() < 0.4:        # another template: other channel / flag / first statistic
+            channel, mapping = rng.choice(modes)
+            rot = rng.randrange(10)
+        step = {'op': ['none'] if k == 0 else gen_op(), 'mapping': mapping, 'channel': channel, 'rot': rot,
+                'fresh': rng.random() < 0.25}
+        if nvars == 2 and rng.random() < 0.3:
+            step['ask'] = [rng.choice(names)]
+        if rng.random() < 0.2:
+            step['inline'] = gen_op()
+            if container == 'tuple' and step['inline'][0] in STRUCTURAL:
+                # a tuple cannot change under the running template; the application would have to
+                # rebind the name, which is the next render of the history, not this one
+                step['inline'] = ['set', rng.randrange(10), names[0], rng.choice(pools[names[0]])]
+        if rng.random() < 0.15:
+            step['opts'] = {'where': 'start', 'order': rng.choice(['', 'reverse'])}
+        steps.append(step)
+    return {'names': names, 'values': values, 'itemkind': itemkind, 'container': container, 'steps': steps}
+
+
+# ---------------------------------------------------------------- shapes
+def gen_batch(rng, n):
+    keys = rng.choice([('size',), ('size',), ('start',), ('end',), ('size', 'start'), ('size', 'start'),
+                       ('start', 'end'), ('size', 'end'), ('size', 'start', 'end')])
+    b = {}
+    for k in keys:
+        b[k] = rng.randint(1, n + 1) if k == 'size' else rng.randint(1, n + 2)
+    if rng.random() < 0.3:
+        b['orphan'] = rng.randint(0, 3)
+    if rng.random() < 0.3:
+        b['overlap'] = rng.randint(0, 2)
+    return b
+
+
+def gen_shape(rng, mapping, n, uses_mv):
+    container = rng.choice(LAZY) if rng.random() < 0.7 else rng.choice(DIRECT)
+    hashable = container in ('set', 'frozenset')
+    if rng.random() < 0.25:
+        items = 'both'
+    elif mapping:
+        items = 'both' if hashable else 'dict'
+    else:
+        items = 'item'
+    opts = {'where': rng.choice(WHERES), 'items': items,
+            'batch': gen_batch(rng, n) if rng.random() < 0.65 else None,
+            'batch_names': rng.random() < 0.3,
+            'order': rng.choice(ORDERS) if rng.random() < 0.4 else '',
+            'form': rng.choice(FORMS) if rng.random() < 0.3 else 'name',
+            'layout': rng.choice(['interleaved', 'grouped'])}
+    if uses_mv and opts['order'] in ('sort', 'sort_expr'):
+        opts['order'] = 'reverse'       # no ordering is documented for Missing.Value
+    return container, opts
+
+
+def shape_case(ctx, env, rng, variables):
+    uses_mv = any(v is MISSING for _, vals in variables for v in vals)
+    channel, mapping = rng.choice(MODES)
+    container, opts = gen_shape(rng, mapping, len(variables[0][1]), uses_mv)
+    evaluate(ctx, env, variables, mapping, channel, rng.randrange(10), container, 'shape', opts)
+
+
 # ---------------------------------------------------------------- generators
 ALPHA = 'ABCXYZabcxyz019 .-é'
 KINDS = ['int', 'int', 'smallint', 'float', 'float', 'smallfloat', 'mix', 'mix', 'const-int',
          'const-float', 'const-float', 'near-const', 'str', 'str', 'numstr']
 
 
-def gen_list(rng, n=None):
+def gen_list(rng, n=None, kind=None):
     n = n or rng.randint(1, 10)
-    kind = rng.choice(KINDS)
+    kind = kind or rng.choice(KINDS)
     if kind == 'int':
         vals = [rng.randint(-10 ** 6, 10 ** 6) for _ in range(n)]
     elif kind == 'smallint':
@@ -564,6 +1137,16 @@ def gen_list(rng, n=None):
     return kind, vals
 
 
+def gen_variables(rng, maxvars=2, p_more=0.3):
+    kind, vals = gen_list(rng)
+    nm = rng.choice(NAMES)
+    variables = [(nm, vals)]
+    while len(variables) < maxvars and rng.random() < p_more:
+        _, vals2 = gen_list(rng, len(vals))
+        variables.append((rng.choice([x for x in NAMES if x not in [v[0] for v in variables]]), vals2))
+    return variables
+
+
 def exhaustive(tier):
     for dom in (DOM_NUM, DOM_STR, DOM_STR2):
         for L in range(1, EXH_LEN[tier] + 1):
@@ -575,8 +1158,11 @@ def run(ctx, spec):
     from DocumentTemplate import DT_InSV
     from vlib.reach import Reach
     reach = Reach()
-    reach.watch('sequence_variables.statistics', DT_InSV.sequence_variables.statistics)
-    reach.watch('sequence_variables.__getitem__', DT_InSV.sequence_variables.__getitem__)
+    sv = DT_InSV.sequence_variables
+    for label in ('statistics', '__getitem__'):     # diagnosis: absent after a refactoring is no error
+        f = getattr(sv, label, None)
+        if f is not None:
+            reach.watch('sequence_variables.' + label, f)
     reach.start()
     env = Env(ctx)
     env.install()
@@ -602,6 +1188,37 @@ def run(ctx, spec):
             ctx.table('seeded kind', kind2)
             variables.append((rng.choice([x for x in NAMES if x != nm]), vals2))
         all_modes(ctx, env, variables, rng.randrange(10), 'seeded')
+
+    # ---- shapes: other containers, batch options, emission points, orders, tag forms
+    for i, vals in enumerate(exhaustive('quick')):
+        if len(vals) < 2 or i % ctx.nshards != ctx.shard:
+            continue
+        ctx.count('shape:lists from the exhaustive domains')
+        variables = [(NAMES[i % len(NAMES)], vals)]
+        if i % 2:
+            variables.append((NAMES[(i + 1 + i // 7 % 4) % len(NAMES)], vals[1:] + vals[:1]))
+        shape_case(ctx, env, rng, variables)
+    for i in range(SHAPES[ctx.tier] // ctx.nshards):
+        ctx.count('shape:lists seeded')
+        shape_case(ctx, env, rng, gen_variables(rng, maxvars=3, p_more=0.5))
+
+    # ---- histories: one container object, changed in place between the renders
+    for i, (vals, pos, v) in enumerate(exhaustive_histories(ctx.tier)):
+        if i % ctx.nshards != ctx.shard:
+            continue
+        ctx.count('history:exhaustive single-change histories')
+        j = i // ctx.nshards
+        itemkind = ('dict', 'item', 'both')[j % 3]
+        channel, mapping = hist_modes(itemkind)[(j // 3) % len(hist_modes(itemkind))]
+        nm = NAMES[j % len(NAMES)]
+        step = {'mapping': mapping, 'channel': channel, 'rot': j % 10, 'fresh': False}
+        h = {'names': [nm], 'values': [[nm, enc(vals)]], 'itemkind': itemkind,
+             'container': 'list' if j % 4 else 'seqclass',
+             'steps': [dict(step, op=['none']), dict(step, op=['set', pos, nm, enc([v])[0]])]}
+        History(ctx, env, h).run('exhaustive')
+    for i in range(HISTORIES[ctx.tier] // ctx.nshards):
+        ctx.count('history:seeded histories')
+        History(ctx, env, gen_history(rng)).run('seeded')
     reach.stop()
     reach.report(ctx)
 
@@ -609,53 +1226,94 @@ def run(ctx, spec):
 def finish(agg):
     c = agg['counters']
     t = agg['tables']
+    tier = agg['tier']
     inc = []
+    diag = []
+    # -- diagnosis of engine internals: reported, never verdict-bearing while the outputs were compared
     for r in ('reach:sequence_variables.statistics', 'reach:sequence_variables.__getitem__'):
         if not c.get(r):
-            inc.append('anchor never entered: ' + r)
+            diag.append('anchor never entered (renamed / rewired?): ' + r)
     if not c.get('dispatch:statistics() calls'):
-        inc.append('the wrapper on the statistics dispatch entries never fired')
+        diag.append('the wrapper on the statistics dispatch entries never fired')
     if c.get('dispatch:table entries wrapped', 0) < len(STATS):
-        inc.append('fewer than ten dispatch-table entries point at statistics()')
+        diag.append('fewer than ten dispatch-table entries point at sequence_variables.statistics')
+    for s in STATS:
+        if not t.get('statistics() entered through prefix', {}).get(s):
+            diag.append('statistics() never seen entered through prefix: ' + s)
+    # -- deciding parts: the output comparisons
+    if not c.get('renders observed'):
+        inc.append('no render was observed')
     for s in STATS:
         if not t.get('first-accessed statistic', {}).get(s):
             inc.append('statistic never the first one accessed: ' + s)
-        if not t.get('statistics() entered through prefix', {}).get(s):
-            inc.append('statistics() never entered through prefix: ' + s)
         if not any(k.startswith('compared:%s ' % s) or k == 'compared:' + s for k in c):
             inc.append('statistic never compared: ' + s)
     for ch, mp in MODES:
         k = '%s/%s' % (ch, 'mapping' if mp else 'attributes')
         if not t.get('mode', {}).get(k):
             inc.append('mode never observed: ' + k)
+        if not t.get('history mode', {}).get(k):
+            inc.append('history mode never observed: ' + k)
     for k in ('compared:median (even count, must lie between the middle values)',
               'compared:median (text, even count)', 'compared:median (text, odd count)',
               'compared:total (must be empty, text data)', 'compared:total (exact)',
               'compared:total (tolerance)', 'compared:variance (tolerance)',
-              'data:lists containing missing values', 'data:renders with the simulated Missing.Value'):
+              'data:lists containing missing values', 'data:renders with the simulated Missing.Value',
+              'shape:renders compared', 'shape:emissions judged',
+              'shape:wrapped (non-subscriptable) container + batch',
+              'shape:wrapped (non-subscriptable) container + batch + several variables',
+              'shape:... and the batch ends well before the sequence does',
+              'history:renders compared', 'history:renders after an in-place change',
+              'history:renders through an already used template',
+              'history:renders through a newly compiled template',
+              'history:two dtml-in tags in one template with a change in between'):
         if not c.get(k):
             inc.append('never evaluated: ' + k)
     if not t.get('seeded kind', {}).get('const-float'):
         inc.append('no constant float list generated')
     if not t.get('variables per render', {}).get('2'):
         inc.append('no render summarised two variables at once')
-    nexh = sum(len(d) ** L for d in (DOM_NUM, DOM_STR, DOM_STR2) for L in range(1, EXH_LEN[agg['tier']] + 1))
+    for name, keys in (('shape container', DIRECT + LAZY), ('shape where', WHERES),
+                       ('shape order', tuple(o or 'plain' for o in ORDERS)), ('shape form', FORMS),
+                       ('shape items', ('dict', 'item', 'both')),
+                       ('history operation before the render', HIST_OPS),
+                       ('history operation between two tags', ('set', 'replace', 'append')),
+                       ('history container', tuple(set(HIST_CONTAINERS))),
+                       ('history items', ('dict', 'item', 'both'))):
+        for k in keys:
+            if not t.get(name, {}).get(k):
+                inc.append('%s never evaluated: %s' % (name, k))
+    nexh = sum(len(d) ** L for d in (DOM_NUM, DOM_STR, DOM_STR2) for L in range(1, EXH_LEN[tier] + 1))
     if c.get('lists:exhaustive', 0) != nexh:
         inc.append('exhaustive part incomplete: %s of %d lists' % (c.get('lists:exhaustive'), nexh))
+    nhist = count_exhaustive_histories(tier)
+    if c.get('history:exhaustive single-change histories', 0) != nhist:
+        inc.append('exhaustive histories incomplete: %s of %d'
+                   % (c.get('history:exhaustive single-change histories'), nhist))
     return {'inconclusive': inc,
             'coverage': {'exhaustive': True,
-                         'exhaustive_scope': 'all lists of length 1..%d over %r, %r and %r, each in 4 modes'
-                                             % (EXH_LEN[agg['tier']], DOM_NUM, DOM_STR, DOM_STR2),
+                         'exhaustive_scope': 'all lists of length 1..%d over %r, %r and %r, each in 4 modes; all '
+                                             'render / change-one-value-in-place / render histories on lists '
+                                             'of length 1..%d over the first two domains'
+                                             % (EXH_LEN[tier], DOM_NUM, DOM_STR, DOM_STR2, EXH_HIST_LEN[tier]),
                          'exhaustive_lists': nexh,
+                         'exhaustive_histories': nhist,
                          'seeded_lists': c.get('lists:seeded', 0)
                          + c.get('lists:seeded (second variable of a render)', 0),
-                         'explanation': 'exhaustive inside the stated domains; seeded lists are extra'}}
+                         'shape_renders': c.get('shape:renders compared', 0),
+                         'history_renders': c.get('history:renders compared', 0),
+                         'internals_diagnosis': diag,
+                         'explanation': 'exhaustive inside the stated domains; seeded lists, shapes and '
+                                        'histories are extra'}}
 
 
 def replay(ctx, rep):
     c = rep['case']
     env = Env(ctx)
     env.install()
+    if 'history' in c:
+        History(ctx, env, c['history']).run(c.get('origin', 'replay'))
+        return
     variables = [(nm, dec(vals)) for nm, vals in c['variables']]
     evaluate(ctx, env, variables, c['mapping'], c['channel'], c['rot'],
-             c.get('container', 'list'), c.get('origin', 'replay'))
+             c.get('container', 'list'), c.get('origin', 'replay'), c.get('opts'))
